@@ -2,6 +2,7 @@ package rules
 
 import (
 	"go/token"
+	"go/types"
 
 	"golang.org/x/tools/go/ssa"
 
@@ -27,6 +28,7 @@ func runC03(c *Ctx) {
 		"(R2) a message body is read into a window of exactly the declared size: the size is the big-endian 32-bit header minus 4 through value-preserving conversions, the accept path resets the window to that size (len(Msg) == size proved on both branches) and fills it with one ReadFull; (R3) every successful message read passes through that reset, and only pkg/buffer stores the window - so unread or surplus bytes of one message can never be seen by the next; " +
 		"(R4) the accessors never read beyond the window and never panic (every index / slice proved in range for all sizes) and advance the window by exactly what they decoded; (R5) every accessor / frame-reader error is inspected before its value is used and its failing edge ends in a non-nil return (or the size-exceeded handler); (R6) connection code consults no clock, randomness or environment. Not decided: TCP itself."
 	R.Assumptions = []string{"io.ReadFull returns len(buf) bytes or an error; bufio.Reader.ReadByte returns one byte or an error - both independent of transport segmentation"}
+	R.Explanation += " Also decided: an oversized message is skipped in exactly its declared length (Slurp: every chunk is between 1 and min(remaining, limit) bytes and the counter is decremented by the bytes read); every re-slice of message bytes anywhere in the library is bounded by the length of the slice it is cut from (never by its capacity)."
 	R.Trusted = []string{"go/types + go/ssa", "io.ReadFull / bufio contracts"}
 	sum := c.summaries("C03.R2")
 	mods := c.modSets()
@@ -192,6 +194,44 @@ func runC03(c *Ctx) {
 	}
 	R.Floor("C03.R3", "stores to Reader.Msg", nSt, 3)
 
+	// an oversized message is skipped in exactly its declared length (chunks of 1..min(remaining, limit) bytes)
+	c.slurpExact("C03.R2")
+
+	// no view of message bytes extends beyond the view it was cut from: a re-slice of the window or of an accessor
+	// result is bounded by its length, not its capacity (the allocation behind a message holds other messages' bytes)
+	nView := 0
+	resetFn := c.P.Method("buffer", "Reader", "reset")
+	for _, fn := range c.P.ScopeFuncs() {
+		if fn == resetFn {
+			continue // the window's own extension from the high-water mark is decided by R2 / C18.R1
+		}
+		var l *core.Lin
+		for _, b := range fn.Blocks {
+			for _, in := range b.Instrs {
+				sl, ok := in.(*ssa.Slice)
+				if !ok || sl.High == nil {
+					continue
+				}
+				if _, isSlice := sl.X.Type().Underlying().(*types.Slice); !isSlice {
+					continue
+				}
+				if l == nil {
+					l = core.NewLin(c.P, fn, c.modSets(), c.summaries("C03.R4"))
+				}
+				if !msgDerived(l, sl.X, 0) {
+					continue
+				}
+				nView++
+				hT, hO := l.Expr(sl.High)
+				R.Check(l.Prove(sl, hT, l.LenOf(sl.X), -hO), "C03.R4", fkey(fn)+":view-within-length:"+describe(sl.X)+"[:"+describe(sl.High)+"]", c.at(sl), "a view cut from message bytes ends within the bytes it is cut from (never in the spare capacity behind them)", "E-LIN: high <= len(operand)", "the upper bound of this re-slice of message bytes is not proved <= len: Go only checks it against the capacity, so bytes behind the current message (earlier / later messages in the same allocation) can be read")
+			}
+		}
+	}
+	R.Floor("C03.R4", "re-slices of message bytes", nView, 2)
+
+	// ---------- R7: COPY-in starts at a message boundary
+	c.c03CopyStartsAtBoundary()
+
 	// ---------- R4: accessors
 	var accs []*ssa.Function
 	for _, n := range []string{"GetString", "GetBytes", "GetUint16", "GetUint32", "GetPrepareType", "reset", "ReadMsgSize", "ReadUntypedMsg", "ReadTypedMsg", "ReadType", "Slurp"} {
@@ -356,3 +396,99 @@ func (c *Ctx) c03ErrorEdges() {
 }
 
 var _ = token.ADD
+
+// c03CopyStartsAtBoundary (R7): the handler may start COPY-in while the message that invoked it (Query / Execute) still
+// has unread bytes in the window (a surplus-carrying message). The binary row reader decodes whatever the window holds
+// before it fetches the first CopyData, so those bytes would be taken for COPY data. Accepted: the function that builds
+// the COPY reader first drains the window (GetBytes(len(reader.Msg)) on the same reader, or a pkg/buffer method that
+// empties it), or the row reader's first accessor call is dominated by a CopyReader.Read.
+func (c *Ctx) c03CopyStartsAtBoundary() {
+	R := c.R
+	ncr := c.P.Func("wire", "NewCopyReader")
+	bread := c.P.Method("wire", "BinaryCopyReader", "Read")
+	cread := c.P.Method("wire", "CopyReader", "Read")
+	if ncr == nil || bread == nil || cread == nil {
+		R.Fail("C03.R7", "anchor:copy-readers", "-", "NewCopyReader, CopyReader.Read and BinaryCopyReader.Read resolve", "anchor not found")
+		return
+	}
+	// (ii) the row reader always fetches before it decodes
+	always := true
+	nAcc := 0
+	for _, ci := range core.Calls(bread) {
+		if m := readerMethod(ci); m == "GetUint16" || m == "GetUint32" || m == "GetBytes" || m == "GetString" {
+			nAcc++
+			dom := false
+			for _, rc := range callsIn(bread, calleeIs(cread)) {
+				if core.InstrDominates(rc, ci) {
+					dom = true
+				}
+			}
+			if !dom {
+				always = false
+			}
+		}
+	}
+	if always && nAcc > 0 {
+		R.OK("C03.R7", "BinaryCopyReader.Read:fetches-before-decoding", c.atFn(bread), "COPY data is decoded only from CopyData messages, never from what is left of the message that started the COPY", "every accessor call of the row reader is dominated by a CopyReader.Read")
+		return
+	}
+	// (i) the window is drained where the COPY reader is built
+	drains := func(site ssa.CallInstruction, readerArg ssa.Value) bool {
+		_, rp := pathOf(readerArg)
+		fn := site.Parent()
+		for _, ci := range core.Calls(fn) {
+			if !core.InstrDominates(ci, site) {
+				continue
+			}
+			if readerMethod(ci) == "GetBytes" {
+				if x, ok := core.IsLenOf(ci.Common().Args[1]); ok {
+					if fr, ok := core.FieldOfValue(x); ok && fr.Is(pkBuffer, "Reader", "Msg") {
+						if _, bp := pathOf(ci.Common().Args[0]); bp == rp {
+							if _, mp := pathOf(x); mp == rp+".Msg" {
+								return true
+							}
+						}
+					}
+				}
+			}
+			// a pkg/buffer method that empties the window on every path
+			if callee := core.StaticCallee(ci); callee != nil && c.P.InPkg(callee, "buffer") && callee.Signature.Recv() != nil && len(ci.Common().Args) > 0 {
+				if _, bp := pathOf(ci.Common().Args[0]); bp != rp {
+					continue
+				}
+				nSt, allEmpty := 0, true
+				for _, b := range callee.Blocks {
+					for _, in := range b.Instrs {
+						if st, ok := in.(*ssa.Store); ok {
+							if fr, ok := core.FieldOfAddr(st.Addr); ok && fr.Is(pkBuffer, "Reader", "Msg") {
+								nSt++
+								empty := core.IsNilConst(st.Val)
+								if sl, ok := st.Val.(*ssa.Slice); ok && sl.High != nil {
+									if k, ok := core.ConstInt(sl.High); ok && k == 0 {
+										empty = true
+									}
+								}
+								if !empty {
+									allEmpty = false
+								}
+							}
+						}
+					}
+				}
+				if nSt > 0 && allEmpty && len(callee.Blocks) == 1 {
+					return true
+				}
+			}
+		}
+		return false
+	}
+	n := 0
+	for _, site := range c.P.CallSitesOf(ncr) {
+		if !c.P.InPkg(site.Parent(), "wire") {
+			continue
+		}
+		n++
+		R.Check(drains(site, site.Common().Args[0]), "C03.R7", fkey(site.Parent())+":copy-starts-at-message-boundary", c.at(site), "COPY data is decoded only from CopyData messages, never from what is left of the message that started the COPY", "the window of the reader handed to NewCopyReader is drained first (GetBytes(len(reader.Msg)) or a pkg/buffer method that empties it)", "the COPY reader is built on a reader whose window may still hold unread bytes of the Query / Execute message, and BinaryCopyReader.Read decodes the window before fetching the first CopyData: surplus bytes of one message are interpreted as COPY rows")
+	}
+	R.Floor("C03.R7", "NewCopyReader call sites in package wire", n, 1)
+}
